@@ -58,7 +58,7 @@ class Contract:
     def __init__(self, prop, relpath, qualname, params, ret=None, pre=None, post=None, raises=None,
                  modifies=None, loops=None, gen=None, inline=False, cls=None, self_ty=None,
                  pure=False, note="", name=None, trusted=False, ret_make=None, frame=None,
-                 variant=None, replay=None, interference=None, on_raise_state=None):
+                 variant=None, replay=None, interference=None, on_raise_state=None, allocates=False):
         self.prop, self.relpath, self.qualname = prop, relpath, qualname
         self.params: list[Param] = params
         self.ret, self.pre, self.post = ret, pre, post
@@ -80,6 +80,7 @@ class Contract:
         self.replay = replay
         self.interference = interference
         self.on_raise_state = on_raise_state  # cond(c) on state when an allowed exception leaves
+        self.allocates = allocates  # the callee may create objects: the allocation counter moves up
 
     def key(self):
         return (self.relpath, self.qualname)
@@ -358,6 +359,9 @@ class Model:
     def inplace_op(self, it, op, cur, rhs):
         return NotImplemented
 
+    def value_identity(self, it, a, b):
+        return NotImplemented
+
     def unpack(self, it, v, n):
         return None
 
@@ -529,6 +533,11 @@ class Model:
                     p.oblige(f"dict.get-default-unused@{getattr(e, 'lineno', '?')}",
                              z3.ForAll(xs, f) if xs else f, it.where(e), "typing")
                     return SV(ty.v, os_.get(ent))
+        if isinstance(e.func, ast.Name) and not e.keywords:
+            f = it.lookup(e.func.id, env, e)
+            if isinstance(f, Builtin) and f.name in ("isinstance", "_assertnode", "len", "bool"):
+                args = [pe.ev(a, env) for a in e.args]
+                return f.fn(it, args, {})
         raise Unsupported("pure call")
 
     def pure_subscript(self, it, pe, e, env):
@@ -611,7 +620,13 @@ class Model:
                 p.ghost[m] = self.havoc_ghost(it, m)
             else:
                 p.havoc_heap_type(m, "call")
+        if c.allocates:
+            a0 = p.alloc
+            p.alloc = z3.Int(p.fresh_name("alloc"))
+            p.assume(p.alloc >= a0)
         cc.new = p.snapshot_state()
+        n0 = len(p.pc)
+        p.call_marks.append([c.name, n0, None])
         if c.gen is not None:
             g = c.gen
             cc.result = None
@@ -629,9 +644,15 @@ class Model:
             res = p.fresh_sv(c.ret, "r_" + c.method_name)
         cc.result = res
         if c.post is not None:
-            p.assume(_zb(c.post(cc)), f"postcondition of {c.name}")
+            ps = c.post(cc)
+            if isinstance(ps, (list, tuple)):
+                for x in ps:
+                    p.assume(_zb(x[1] if isinstance(x, tuple) else x), f"postcondition of {c.name}")
+            else:
+                p.assume(_zb(ps), f"postcondition of {c.name}")
         if c.frame is not None:
             p.assume(_zb(c.frame(cc)), f"frame of {c.name}")
+        p.call_marks[-1][2] = len(p.pc)
         return res
 
 
